@@ -76,6 +76,11 @@ def fill(meta, btext):
     return meta
 
 
+HANDLED = {'Debug': ('Debug(ignore)', 'Debug(method(fmt_any))'), 'PartialEq': ('PartialEq(ignore)', 'PartialEq(method(eq_any))'), 'PartialEq+Eq': ('Eq(ignore)', 'PartialEq(method(eq_any))'),
+           'Hash': ('Hash(ignore)', 'Hash(method(hash_any))'), 'PartialOrd': ('PartialOrd(method(pcmp_any))', 'PartialOrd(ignore)'), 'Ord': ('Ord(ignore)', 'Ord(method(cmp_any))'),
+           'PartialOrd+Ord': ('PartialOrd(ignore)', 'Ord(method(cmp_any))'), 'Clone': ('Clone(method(clone_any))', 'Clone(method(clone_any))')}
+
+
 def item_text(kind, ctx, wh, metas, markers, markers1=''):
     """markers: attribute text for the first field of every struct / variant; markers1: for the second field of structs"""
     cid, decl, _, _, _, ftys = ctx
@@ -113,6 +118,11 @@ def generate(tier):
                         if rid == 'Deref':
                             markers = '#[educe(Deref, DerefMut)] '
                         yield (kind, ctx, wh, rid, impls, mode, item_text(kind, ctx, wh, ms, markers, markers1))
+                        # the same request with every field ignored or handled by a method: explicit bounds must still be honoured,
+                        # automatic bounds shrink to the supertraits
+                        if rid in HANDLED and kind != 'union' and wh[0] != 'w2':
+                            h0, h1 = HANDLED[rid]
+                            yield (kind, ctx, wh, rid + '/handled', impls, mode, item_text(kind, ctx, wh, ms, '#[educe(%s)] ' % h0, ('#[educe(%s)] ' % h1) if kind != 'enum' else ''))
 
 
 def check(v, tier, only=None):
@@ -188,6 +198,8 @@ def check(v, tier, only=None):
                         problems.append('impl %s: bound(*) added %s, expected %s' % (tr or 'inherent', added, want))
                 else:   # automatic mode: field types that are delegated (all of them here) plus the supertraits on Self
                     ftys = ctx[5] if kind != 'enum' else [ctx[5][0], ctx[5][1], 'u8']
+                    if rid.endswith('/handled'):
+                        ftys = ['u8'] if kind == 'enum' else []
                     if rid in ('Into', 'Into2'):
                         # struct: the marked field; enum: V0's sole field and V1's marked field
                         first = tr.endswith('< u64 >')
